@@ -102,7 +102,7 @@ def main():
                       "/verif/kani/Cargo.toml); forwarding shims only",
             "baseline_off_cmd": "cd /repo && cargo nextest run --workspace --no-fail-fast --tool-config-file "
                                 "pb:/w/lib/nextest.toml --profile pb --test-threads 8 --offline",
-            "source_commits": ["95d4ee54fd", "729da7e7a6", "ea684ee7c2", "e7036e008b", "fee16cad28", "4da43f6286", "3e6517f3b9", "e08dbe61d0", "50d3ffd37e", "f9220a7d82", "a992cced73"],
+            "source_commits": ["95d4ee54fd", "729da7e7a6", "ea684ee7c2", "e7036e008b", "fee16cad28", "4da43f6286", "3e6517f3b9", "e08dbe61d0", "50d3ffd37e", "f9220a7d82", "a992cced73", "a921dc90a4"],
             "add_only": True,
         },
         "engines": [
